@@ -152,3 +152,163 @@ func okErr(err error) string {
 	}
 	return "err"
 }
+
+func init() { register("lin-gated", linGatedCmd) }
+
+// lin-gated: C06, deterministic interleavings at hook granularity (DESIGN 4.5).  The flush path (log rotation, table
+// write, publication) is parked at ONE of its steps while two clients write and read; then it is released.  The recorded
+// history - invocations, responses (or "still waiting" while parked, completed after the release), final and reopened
+// state - is validated against KevoLin like any other.
+func linGatedCmd(args []string) int {
+	fs := flag.NewFlagSet("lin-gated", flag.ExitOnError)
+	dir := fs.String("dir", "", "database directory")
+	out := fs.String("out", "", "history (ndjson)")
+	site := fs.String("site", "sm.rotate.swapped", "hook site at which the flush path is parked")
+	hit := fs.Int("hit", 1, "n-th hit")
+	imm := fs.Bool("imm", false, "make the flush work on an immutable table (switch first) instead of the active one")
+	fs.Parse(args)
+	stderr := os.Stderr
+	muteStdout()
+	wal.DisableRecoveryLogs = true
+	conc := Conc{Class: "ascii"}
+	cc := CfgClass{MemTableSize: 1 << 20, SyncMode: 0, CompactSec: 3600}
+	if *imm {
+		cc.MemTableSize = 700
+	}
+	eng, err := openEngine(*dir, &cc)
+	if err != nil {
+		fmt.Fprintln(stderr, err)
+		return 2
+	}
+	log, err := newEvLog(*out)
+	if err != nil {
+		fmt.Fprintln(stderr, err)
+		return 2
+	}
+	log.ev(map[string]interface{}{"e": "reset"})
+	call := func(c, op, k, v string, grace time.Duration) chan struct{} {
+		log.ev(map[string]interface{}{"e": "inv", "c": c, "op": op, "k": k, "v": v})
+		done := make(chan struct{})
+		go func() {
+			res := ""
+			switch op {
+			case "put":
+				res = okErr(eng.Put(conc.Key(k), []byte(v)))
+			case "del":
+				res = okErr(eng.Delete(conc.Key(k)))
+			default:
+				val, err := eng.Get(conc.Key(k))
+				res = "NONE"
+				if err == nil {
+					res = string(val)
+				} else if !isNotFound(err) {
+					res = "ERR:" + err.Error()
+				}
+			}
+			log.ev(map[string]interface{}{"e": "ret", "c": c, "res": res})
+			close(done)
+		}()
+		select {
+		case <-done:
+		case <-time.After(grace):
+		}
+		return done
+	}
+	wait := func(chs ...chan struct{}) bool {
+		for _, ch := range chs {
+			select {
+			case <-ch:
+			case <-time.After(20 * time.Second):
+				return false
+			}
+		}
+		return true
+	}
+	// old state: several versions so that the keys carry sequence numbers well above 1
+	n := 0
+	for round := 0; round < 4; round++ {
+		for _, k := range []string{"k1", "k2", "k3"} {
+			n++
+			if !wait(call("c1", "put", k, fmt.Sprintf("old-%d", n), time.Second)) {
+				return 4
+			}
+		}
+	}
+	g := newGate()
+	g.Park(*site, *hit)
+	fdone := make(chan struct{})
+	go func() { eng.FlushImMemTables(); close(fdone) }()
+	if !g.Wait(*site, 3*time.Second) {
+		log.ev(map[string]interface{}{"e": "notreached"})
+		log.close()
+		return 5
+	}
+	// while the flush path stands still: each client is sequential, a call that does not return within the grace period is
+	// left pending and that client makes no further call until it has returned
+	var pend []chan struct{}
+	d1 := call("c1", "put", "k1", "new-1", 150*time.Millisecond)
+	d2 := call("c2", "get", "k1", "-", 150*time.Millisecond)
+	pend = append(pend, d1, d2)
+	select {
+	case <-d1:
+		pend = append(pend, call("c1", "del", "k2", "-", 150*time.Millisecond))
+	default:
+	}
+	select {
+	case <-d2:
+		d3 := call("c2", "get", "k2", "-", 150*time.Millisecond)
+		pend = append(pend, d3)
+		select {
+		case <-d3:
+			pend = append(pend, call("c2", "get", "k3", "-", 150*time.Millisecond))
+		default:
+		}
+	default:
+	}
+	d4 := call("c3", "put", "k3", "new-3", 150*time.Millisecond)
+	pend = append(pend, d4)
+	select {
+	case <-d4:
+		pend = append(pend, call("c3", "get", "k3", "-", 150*time.Millisecond))
+	default:
+	}
+	g.Release(*site)
+	if !wait(append(pend, fdone)...) {
+		log.ev(map[string]interface{}{"e": "hang", "msg": "a call did not return within 20 s after the flush path was released at " + *site})
+		log.close()
+		return 4
+	}
+	g.Close()
+	// after the release every client reads everything once more
+	for _, k := range []string{"k1", "k2", "k3"} {
+		wait(call("c1", "get", k, "-", time.Second))
+	}
+	project := func() map[string]string {
+		st := map[string]string{}
+		for _, k := range []string{"k1", "k2", "k3", "k4"} {
+			v, err := eng.Get(conc.Key(k))
+			switch {
+			case err == nil:
+				st[k] = string(v)
+			case isNotFound(err):
+				st[k] = "NONE"
+			default:
+				st[k] = "ERR:" + err.Error()
+			}
+		}
+		return st
+	}
+	quiesce(5 * time.Second)
+	log.ev(map[string]interface{}{"e": "final", "st": project()})
+	eng.Close()
+	eng, err = openEngine(*dir, nil)
+	if err != nil {
+		log.ev(map[string]interface{}{"e": "error", "msg": "reopen: " + err.Error()})
+		log.close()
+		return 3
+	}
+	log.ev(map[string]interface{}{"e": "final", "st": project()})
+	log.close()
+	eng.Close()
+	return 0
+}
